@@ -19,6 +19,25 @@ func Mixed(a int32, b uint64) int32 {
 	return int32(b>>32)<<1 + a*3 - 32
 }
 
+// ---- division and remainder (truncated; zero divisor panics; MinInt / -1 wraps)
+func DivU32(a, b uint32) uint32 { return a / b }
+func RemU8(a, b uint8) uint8    { return a % b }
+func DivI32(a, b int32) int32   { return a / b }
+func RemI32(a, b int32) int32   { return a % b }
+func DivI8(a, b int8) int8      { return a / b }
+func RemI64(a, b int64) int64   { return a % b }
+func DivConst(a int32) int32    { return a/7 + a%7 - a/(-3) }
+func DivU64Const(a uint64) uint64 { return a/3 + a%5 }
+
+// ---- a panic whose value is built with fmt-like boxing
+func PanicBoxed(x int32) int32 {
+	if x < 0 {
+		panic(boxed("negative", x))
+	}
+	return x + 1
+}
+func boxed(s string, v ...interface{}) string { return s }
+
 // ---- bit operations
 func AndNotU32(a, b uint32) uint32 { return a &^ b }
 func XorI32(a, b int32) int32      { return a ^ b }
@@ -302,7 +321,8 @@ func WhileShift(b uint64) uint64 { // the shape of bmtree.shiftMulti
 }
 
 // ---- must be refused
-func Div(a, b int32) int32          { return a / b }
+func Float(a float64) float64       { return a * 2 }
+func MapGet(m map[int32]int32) int32 { return m[1] }
 func StoreParam(xs []uint64)        { xs[0] = 1 }
 func Alloc(n int) []uint64          { return make([]uint64, n) }
 func Sub(xs []uint64) []uint64      { return xs[1:] }
@@ -319,7 +339,7 @@ func FillLoop(xs []uint64) {
 	}
 }
 
-func CallsRefused(a int32) int32 { return Div(a, 3) + 1 }
+func CallsRefused(a int32) int32 { return MapGet(nil) + a }
 
 // test access to the unexported fields (not translated)
 func SetCounter(c *Counter, n, lim int32)  { c.n, c.lim = n, lim }
